@@ -11,8 +11,9 @@
      caller rebound sys.argv / sys.path after importing kernprof), all sequences rs of runs
      = option sets x program behaviours (return, sys.exit, KeyboardInterrupt, exception;
      editing sys.path / sys.argv in place; picking up a stale builtins.profile);
-   - restored = sys.argv contents, sys.path contents, decorator usable and as found (or
-     undecided), no profiler enabled, no timer thread left.
+   - restored = sys.argv contents, sys.path contents, decorator usable and with the decision
+     and profiler it was found with, no profiler enabled, no timer thread left (the timer's
+     own interleavings with stop() are part of every program: Prog.p_sched).
 
    [current] (Cli/MainEffects.v) is the behaviour of the tree as it is now, i.e. after the
    repairs 204c2e5, d567ae1, f436ae3, 2d3e878; [unrepaired] is the tree before them.
@@ -32,6 +33,15 @@ Proof. exact restores_current. Qed.
 Theorem C19_restores_each_run :
   forall s o p, usable (gp s) = true -> restored s (snd (main current o p s)) = true.
 Proof. exact restores_current_run. Qed.
+
+(* "... sequences of several in-process runs followed by ordinary use of the profile decorator":
+   interleave kernprof.main runs (ARun) with enable() / disable() / decorations of
+   line_profiler.profile in any way - what can be observed at the end (argv, path, the whole
+   decorator object, trace slot, threads) is what the ordinary uses ALONE would have produced.
+   In particular a user's explicit enable()/disable() survives every later run. *)
+Theorem C19_runs_invisible :
+  forall acts s, veq (exec_acts current s acts) (exec_acts current s (filter is_user acts)).
+Proof. exact runs_invisible_current. Qed.
 
 (* any main with these four behaviours satisfies C19 (what C19_restores instantiates) *)
 Theorem C19_restores_if_fixed :
@@ -74,6 +84,26 @@ Theorem C19_timer_needs_single_creation :
                 /\ timers (snd (main cfg o p s)) = timers s + 1.
 Proof. exact timer_needs_repair. Qed.
 
+(* ---- the periodic-dump timer (-i N), with stop() falling anywhere - also into a dump ------------ *)
+(* Whatever the timer did before rt.stop() (expiries, dumps started and finished, in any
+   interleaving) and whatever happens afterwards: no timer is armed, none can be armed again,
+   and when the dumps in progress have returned no helper thread is left.  (C19_restores uses
+   this for every program: Prog.p_sched is universally quantified there.) *)
+Theorem C19_timer_stop_final :
+  forall pre post : list tevent,
+    let t := rt_exec rearm_before_dump rt_init (pre ++ Stop :: post) in
+    rt_armed t = O /\ rt_running t = false
+    /\ rt_threads (rt_exec rearm_before_dump t (repeat DumpDone (rt_dumping t))) = O.
+Proof. exact rt_stop_final. Qed.
+
+(* ... and this depends on _run re-arming BEFORE it dumps: with the other order a stop() that
+   falls into a dump is undone when the dump returns *)
+Theorem C19_timer_needs_rearm_before_dump :
+  rt_leftover false [Fire] = 1%nat
+  /\ rt_armed (rt_exec false rt_init [Fire; Stop; DumpDone]) = 1%nat
+  /\ rt_leftover false [] = O /\ rt_leftover false [Fire; DumpDone] = O.
+Proof. exact rt_dump_first_leaks. Qed.
+
 Theorem C19_unrepaired_refuted : ~ C19_statement unrepaired.
 Proof. exact unrepaired_refuted. Qed.
 
@@ -85,10 +115,10 @@ Proof. exact decorate_raises_iff. Qed.
 Theorem C19_nonvacuous :
   usable (gp st0) = true
   /\ restored st0 (exec_runs current st0 [(opts0, returns); (opts0, raises); (opts_timed, returns);
-                                           (opts_module, mkProg Exc true true true)]) = true
+                                           (opts_module, mkProg Exc true true true [Fire; Fire; DumpDone])]) = true
   /\ restored st0 (exec_runs unrepaired st0 [(opts0, returns)]) = false
   /\ fst (main current opts0 raises st0) = Raised
-  /\ cur (path (snd (main_body current opts_module (mkProg Return true false true) st0)))
+  /\ cur (path (snd (main_body current opts_module (mkProg Return true false true []) st0)))
      = ["/T/setupd"; "/T"; "/lib"; "/prog-added"]
-  /\ cur (argv (snd (main_body current opts_module (mkProg Return false true true) st0))) = ["mod"; "x"; "prog-added"].
+  /\ cur (argv (snd (main_body current opts_module (mkProg Return false true true []) st0))) = ["mod"; "x"; "prog-added"].
 Proof. exact nonvacuous. Qed.
